@@ -244,6 +244,25 @@ def d_source(ctx, prog, gh):
         probs.append("returns %s, which is neither an error nor the table entry of the name asked" % S.term_str(leaf)[:160])
     if n_ok < 2:
         probs.append("expected the cached and the freshly stored lookup to be returned, found %d lookup returns" % n_ok)
+    # D-REPLY: whether a reply is taken is decided on the reply (and this lookup's own name / query), never on state of
+    # the client that other lookups of the same machine change meanwhile
+    is_resp = lambda x: x[0] == "await" and S.atoms(x[1], lambda y: y[0] == "call" and y[1].rsplit("::", 1)[-1] in ("recv_msg", "recv"))
+    rprobs = []
+    for conds, log, leaf in S.paths(t):
+        for c, o in conds:
+            if not S.atoms(c, is_resp):
+                continue
+            # a value obtained by an atomic read-modify-write (fetch_add, swap, ..) when the query was made is this
+            # lookup's own; a plain read of a field of the client is whatever the latest lookup left there
+            RMW = ("fetch_add", "fetch_sub", "swap", "compare_exchange", "fetch_update", "random")
+            own = S.atoms(c, lambda y: y[0] == "call" and y[1].rsplit("::", 1)[-1] in RMW)
+            c2 = S.subst(c, lambda y: ("opaque", "own") if y in own else None)
+            shared = [y for y in S.atoms(c2, lambda y: y[0] == "field" and y[1][0] == "field" and y[1][2] == "self" and y[2] != "name_to_ip")]
+            if shared:
+                rprobs.append("whether the reply is taken depends on %s, client state shared by all lookups of the machine: with two lookups in flight a correct reply to the older one is refused (no address, nothing cached)" % S.term_str(shared[0])[:90])
+    rprobs = sorted(set(rprobs))
+    (ctx.bad if rprobs else ctx.ok)("D-REPLY", "D-REPLY:get_host_by_name", gh.span, rprobs[0] if rprobs else
+        "every decision about a reply is a function of the reply itself")
     (ctx.bad if probs else ctx.ok)("D-SOURCE", "D-SOURCE:get_host_by_name", gh.span, "; ".join(sorted(set(probs))[:2]) if probs else
         "%d address-returning paths, each returns get_mapping(self, name)" % n_ok)
 
